@@ -66,6 +66,14 @@ def gen_case(g, tier):
     prec = F(1, 1 << g.choice([2, 4, 6, 10, 10, 14, 20]))
     if scalar_bracket:
         prec = max(prec, F(1, 1 << 14))
+    # exactness premise of this family (DESIGN 1.3): every midpoint AND its image must be representable in float64.  After j
+    # halvings a midpoint has 2 + j fractional bits and |x| < 8, so x^3 needs 3 (2 + j) + 9 bits (+ 2 for the coefficient 1/4):
+    # j <= 12, i.e. precision >= 2^-8; x^2 needs 2 (2 + j) + 6 bits: precision >= 2^-14.  Finer precisions would compare a float
+    # function that is flat near a root with zero slope (x^3/4 - 1 at 0) with the exact cubic.
+    if kind == "cubic":
+        prec = max(prec, F(1, 1 << 8))
+    elif kind == "square":
+        prec = max(prec, F(1, 1 << 14))
     max_iter = g.choice([100, 100, 100, 3, 0, 1000])
     bad_bracket = g.chance(0.04)
     if bad_bracket:
